@@ -249,7 +249,9 @@ func GenPointerish(t *sim.Tape) (data []byte, marks []int, class string) {
 		s := v[t.Choose(len(v), "ptr-variant")]
 		return []byte(s), []int{len(s), len(canon), 10}, "pointer-variant"
 	case 2:
-		extra := []string{"x", "extra line\n", "\x00", "size 5\n", "more: stuff\n", "\n\n\nhello"}[t.Choose(6, "ptr-extra")]
+		extra := []string{"x", "extra line\n", "\x00", "size 5\n", "more: stuff\n", "\n\n\nhello",
+			// well-formed lines in the wrong place
+			"ext-0-foo sha256:" + sim.OidOf([]byte("ext")) + "\n", "version https://git-lfs.github.com/spec/v1\n", "oid sha256:" + oid + "\n"}[t.Choose(9, "ptr-extra")]
 		s := canon + extra
 		return []byte(s), []int{len(canon), len(canon) - 1, len(s)}, "pointer-plus-extra"
 	case 3:
